@@ -127,6 +127,13 @@ class Folder:
 
     def _store(self, env, place, v):
         if place["p"]:
+            # (*r).field = v on a model struct (a mutable dict shared by every reference to it)
+            pr = place["p"]
+            base = env.get(place["l"])
+            if len(pr) == 2 and pr[0]["k"] == "deref" and pr[1]["k"] == "field" and isinstance(base, tuple) and base[0] == "ref" \
+                    and isinstance(base[1], tuple) and base[1][0] == "struct":
+                base[1][1][pr[1]["n"]] = v
+                return
             raise Unsupported("store through projection")
         env[place["l"]] = v
 
@@ -153,7 +160,10 @@ class Folder:
                     raise Diverged("index out of bounds")
                 v = v[1][i]
                 continue
-            if e["k"] == "downcast" and isinstance(v, tuple) and v[0] in ("some", "none"):
+            if e["k"] == "downcast" and isinstance(v, tuple) and v[0] in ("some", "none", "adt"):
+                continue
+            if e["k"] == "field" and isinstance(v, tuple) and v[0] == "adt" and e["i"] < len(v[4]):
+                v = v[4][e["i"]]
                 continue
             if e["k"] == "field" and isinstance(v, tuple) and v[0] == "some" and e["i"] == 0:
                 v = v[1]
@@ -241,13 +251,17 @@ class Folder:
             return ("none",) if rv["variant"] == "None" else ("some", self._operand(f, body, env, rv["ops"][0]))
         if k == "agg" and rv.get("agg") == "adt" and rv.get("adt") in ("std::ops::RangeTo", "std::ops::RangeFrom", "std::ops::Range"):
             return (rv["adt"].rsplit("::", 1)[1],) + tuple(self._operand(f, body, env, o) for o in rv["ops"])
+        if k == "agg" and rv.get("agg") == "adt" and rv.get("vidx") is not None and rv.get("adt", "").startswith(("saphyr", "std::result::Result")):
+            return ("adt", rv["adt"], rv["variant"], rv["vidx"], tuple(self._operand(f, body, env, o) for o in rv["ops"]))
         if k == "discr":
             v = self._load(f, body, env, rv["p"])
             while isinstance(v, tuple) and v[0] == "ref":
                 v = v[1]
             if isinstance(v, tuple) and v[0] in ("some", "none"):
                 return int(v[0] == "some")
-            raise Unsupported("discriminant of a non-Option value")
+            if isinstance(v, tuple) and v[0] == "adt":
+                return v[3]
+            raise Unsupported("discriminant of an unmodelled value")
         if k == "agg" and rv.get("agg") == "closure":
             return ("closure", rv["def"], tuple(self._operand(f, body, env, o) for o in rv["ops"]))
         raise Unsupported("rvalue %s" % k)
@@ -292,7 +306,7 @@ class Folder:
                 and isinstance(a[1], tuple) and a[1][0] == "tuple":
             c = a[0]
             return self.call(c[1], [("tuple",) + tuple(c[2])] + list(a[1][1:]))
-        if s0 is not None and not all(ord(ch) < 128 for ch in s0[1]) and base in ("str::find", "str::strip_prefix", "std::ops::Index::index"):
+        if s0 is not None and not all(ord(ch) < 128 for ch in s0[1]) and base in ("str::find", "std::ops::Index::index"):
             raise Unsupported("byte offsets into non-ASCII text")
         if s0 is not None and len(a) > 1:
             if base == "str::strip_prefix":
@@ -309,6 +323,8 @@ class Folder:
                 if not (0 <= lo <= hi <= len(s0[1])):
                     raise Diverged("slice out of range")
                 return ("str", s0[1][lo:hi])
+        if s0 is not None and base == "str::as_bytes":
+            return ("bytes", tuple(s0[1].encode("utf-8")))
         if s0 is not None and base == "str::bytes":
             return ("iter", tuple(s0[1].encode("utf-8")))
         if a and isinstance(a[0], tuple) and a[0][0] in ("some", "none"):
@@ -375,6 +391,8 @@ class Folder:
             }
             if nm in table:
                 return int(table[nm])
+        if base == "char::len_utf8" and isinstance(a[0], int):
+            return 1 if a[0] < 0x80 else 2 if a[0] < 0x800 else 3 if a[0] < 0x10000 else 4
         if base == "char::is_digit" and len(a) > 1 and isinstance(a[0], int) and isinstance(a[1], int):
             c = a[0]
             if c < 128:
